@@ -14,6 +14,8 @@ var layouts = []layout{
 	{"h1": {Topic: "t1", Kind: "rec", Match: "none"}},
 	{"h1": {Topic: "t1", Kind: "rec", Match: "changed"}, "h2": {Topic: "t1", Kind: "publish", Match: "none", Targets: []string{"t2"}}, "h3": {Topic: "t2", Kind: "rec", Match: "none"}},
 	{"h1": {Topic: "t1", Kind: "rec", Match: "warn"}, "h2": {Topic: "t1", Kind: "publish", Match: "changed", Targets: []string{"t2"}}, "h3": {Topic: "t2", Kind: "rec", Match: "changed"}},
+	// three identical anonymous recorders on one topic (two handlers are two registrations because they are two objects)
+	{"h1": {Topic: "t1", Kind: "rec", Match: "none"}, "h2": {Topic: "t1", Kind: "rec", Match: "none"}, "h3": {Topic: "t1", Kind: "rec", Match: "none"}},
 }
 
 type step struct {
